@@ -90,6 +90,10 @@ pub use trainer::{SolverType, Trainer};
 #[cfg(vaporetto_verif)]
 #[doc(hidden)]
 pub use trainer::VERIF_LEARNED;
+#[cfg(feature = "train")]
+#[cfg(vaporetto_verif)]
+#[doc(hidden)]
+pub use tag_trainer::VERIF_TAG_LEARNED;
 
 #[cfg(feature = "kytea")]
 pub use kytea_model::KyteaModel;
